@@ -25,7 +25,26 @@
    FixPruneAtomicFloor = FALSE is the code as it is (H12): the commitments rows — which define the
    oldest retained block, the resume point and the re-seeded floor — are only deleted by the final
    range delete; TRUE puts the range deletes up to the block reached into every flushed batch, so
-   that each batch is a complete prune and the oldest retained block advances atomically. *)
+   that each batch is a complete prune and the oldest retained block advances atomically.
+
+   The windowed event index.  Events are found through aggregated bloom filters over aligned
+   windows of W blocks (core.NumBlocksPerFilter): the window the chain head is in lives in memory
+   (the running filter `rf`, lazily initialised by pruner.InitializeRunningEventFilter on first use
+   after a start: InitFilter), every completed window is persisted in the same write as its last
+   block (disk.win, keyed by the window's first block; `lo` is the lowest block whose bloom it
+   contains — a window rebuilt without an anchor starts at the oldest retained block), a revert of
+   the last block of a window re-opens it (loads and deletes the persisted row), and every batch of
+   a prune range-deletes the persisted windows that lie WHOLLY below the block it reached
+   (pruneAggregatedBloomFiltersUpto).  EventsCovered: every retained block is indexed by the
+   running window or by a persisted one — at every moment, also between two batches, on the image a
+   crash leaves and across restarts.  WinBound ("exact" = the code as it is) moves the bound of that
+   range delete by one block in either direction: "inclusive" deletes the window whose LAST block
+   is the oldest retained one (EventsCovered must fail), "short" leaves a window wholly below the
+   floor (BelowFloorClean / Resumable must fail).
+
+   Block numbers are absolute: the model tracks the chain from block Base (0 = genesis) up; for
+   Base > 0 the initial database is the canonical result of an earlier life that pruned up to
+   Base, so that a dozen blocks can be placed across a boundary of the real window size. *)
 EXTENDS Integers, Sequences, FiniteSets, TLC
 
 CONSTANTS
@@ -41,10 +60,14 @@ CONSTANTS
   EnableRevert,
   EnableInterrupts,  \* FALSE: prunes run to completion (fault-free sequences for the enumerator)
   FixPruneAtomicFloor,
-  FixSampleOnReorg
+  FixSampleOnReorg,
+  W,             \* blocks per aggregated bloom filter window (core.NumBlocksPerFilter)
+  Base,          \* first block of the initial chain; everything below was pruned by an earlier life
+  WinBound       \* "exact": persisted windows wholly below the prune bound are deleted (the code as it is)
 
 VARIABLES
-  disk,      \* durable: height, families (sets of block numbers), l1
+  disk,      \* durable: height, families (sets of block numbers), l1, win (persisted windows)
+  rf,        \* the running event filter: [init, from, lo, next]
   yf,        \* first young block number (head+1 when no block is young)
   floor,     \* the shared in-memory RetentionFloor (state is served from this block up)
   pending,   \* pendingL2Heads
@@ -58,8 +81,8 @@ VARIABLES
   steps,
   act, res
 
-vars == <<disk, yf, floor, pending, sampled, svc, alive, pc, keepMax, dirty, err, steps, act, res>>
-view == <<disk, yf, floor, pending, sampled, svc, alive, pc, keepMax, dirty, err, steps>>
+vars == <<disk, rf, yf, floor, pending, sampled, svc, alive, pc, keepMax, dirty, err, steps, act, res>>
+view == <<disk, rf, yf, floor, pending, sampled, svc, alive, pc, keepMax, dirty, err, steps>>
 
 Nums == 0..MaxH
 Min2(a, b) == IF a <= b THEN a ELSE b
@@ -82,9 +105,58 @@ DelBlock(d, n) ==
 Idle == [active |-> FALSE, start |-> 0, end |-> 0, cur |-> 0, stage |-> "hash", first |-> FALSE,
          cancelled |-> FALSE, muts |-> 0]
 
+\* ------------------------------------------------------------------ the windowed event index
+WinOf(n) == n - (n % W)
+WinStarts == {k * W : k \in 0..((MaxH + 1) \div W)}
+WinFroms(d) == {w.from : w \in d.win}
+NoFilter == [init |-> FALSE, from |-> 0, lo |-> 0, next |-> 0]
+
+(* Inserting the blocks up to `latest` into a running window that starts at F and holds the blooms
+   from block L up: every window completed on the way is persisted (RunningEventFilter.insert). *)
+Fill(win, F, L, latest) ==
+  LET full == {f \in WinStarts : f >= F /\ f + W - 1 <= latest}
+      nf == WinOf(latest + 1) IN
+  [win |-> win \cup {[from |-> f, lo |-> IF f = F THEN L ELSE f] : f \in full},
+   rf |-> [init |-> TRUE, from |-> Max2(F, nf), lo |-> IF nf <= F THEN L ELSE nf, next |-> latest + 1]]
+
+(* pruner.InitializeRunningEventFilter without a stored snapshot (the engine never stops
+   gracefully): walk back from the head's window to the window of the oldest retained block looking
+   for a persisted window to anchor on; without one the window of the oldest retained block is
+   rebuilt from that block up.  Then fill up to the head. *)
+InitResult(d) ==
+  IF d.height < 0 THEN [win |-> d.win, rf |-> [init |-> TRUE, from |-> 0, lo |-> 0, next |-> 0]]
+  ELSE LET fl == Oldest(d)
+           cand == {f \in WinFroms(d) : f >= WinOf(fl) /\ f <= WinOf(d.height)}
+           anchor == CHOOSE f \in cand : \A g \in cand : g <= f IN
+       IF cand # {} THEN Fill(d.win, anchor + W, anchor + W, d.height)
+       ELSE Fill(d.win, WinOf(fl), fl, d.height)
+
+(* persisted windows a prune up to e (exclusive) deletes: those wholly below e *)
+WinSlack == IF WinBound = "inclusive" THEN 1 ELSE IF WinBound = "short" THEN 0 - 1 ELSE 0
+DelWins(ws, e) == {w \in ws : ~(w.from + W <= e + WinSlack)}
+
+(* every retained block of database d is indexed, given the running filter r *)
+Covered(d, r) ==
+  d.com # {} =>
+    \A n \in Oldest(d)..d.height :
+      IF WinOf(n) = r.from THEN r.lo <= n /\ n < r.next
+      ELSE \E w \in d.win : w.from = WinOf(n) /\ w.lo <= n
+
+(* the database an earlier life left: chain 0..Base pruned up to Base (nothing for Base = 0) *)
+ImageDisk ==
+  IF Base = 0
+  THEN [height |-> -1, hdr |-> {}, com |-> {}, su |-> {}, txs |-> {}, h2n |-> {}, txl |-> {}, hist |-> {}, l1 |-> -1, win |-> {}]
+  ELSE [height |-> Base, hdr |-> Max2(0, Base - Lag)..Base, com |-> {Base}, su |-> {Base}, txs |-> {Base},
+        h2n |-> (Base - 1)..Base, txl |-> {Base}, hist |-> {Base}, l1 |-> -1,
+        win |-> IF Base % W = W - 1 THEN {[from |-> WinOf(Base), lo |-> WinOf(Base)]} ELSE {}]
+
+(* ... and the blocks up to InitH stored by this one *)
+InitFill == LET r == InitResult(ImageDisk) IN Fill(r.win, r.rf.from, r.rf.lo, InitH)
+
 InitDisk ==
-  LET ns == 0..InitH IN
-  [height |-> InitH, hdr |-> ns, com |-> ns, su |-> ns, txs |-> ns, h2n |-> ns, txl |-> ns, hist |-> ns, l1 |-> -1]
+  LET ns == Base..InitH IN
+  [height |-> InitH, hdr |-> Max2(0, Base - Lag)..InitH, com |-> ns, su |-> ns, txs |-> ns,
+   h2n |-> Max2(0, Base - 1)..InitH, txl |-> ns, hist |-> ns, l1 |-> -1, win |-> InitFill.win]
 
 (* sampleHeight: the smallest young block in [sampled, height], or height when there is none
    (ErrNoBlockInWindow); needs the header timestamps of the probed range. *)
@@ -99,6 +171,7 @@ SeedSample(d) == IF ~MinAge \/ d.com = {} THEN 0 ELSE SampleOf(d, Oldest(d))
 
 Init ==
   /\ disk = InitDisk
+  /\ rf = InitFill.rf
   /\ yf = InitH + 1
   /\ floor = SeedFloor(InitDisk)
   /\ pending = 0
@@ -113,11 +186,14 @@ Budget == steps < MaxSteps
 
 \* ------------------------------------------------------------------ chain and environment
 NewBlock(y) ==
-  /\ Quiet /\ Budget /\ disk.height < MaxH
+  /\ Quiet /\ Budget /\ disk.height < MaxH /\ rf.init
   /\ y \in BOOLEAN
   /\ (yf <= disk.height) => y           \* timestamps are monotone: after a young block only young ones
   /\ LET n == disk.height + 1 IN
-     /\ disk' = AddBlock(disk, n)
+     \* the window completed by this block is persisted in the same write
+     /\ LET f == Fill(disk.win, rf.from, rf.lo, n) IN
+          /\ disk' = [AddBlock(disk, n) EXCEPT !.win = f.win]
+          /\ rf' = f.rf
      /\ yf' = IF yf <= disk.height THEN yf ELSE IF y THEN n ELSE n + 1
      /\ act' = [name |-> "NewBlock", n |-> n, outcome |-> IF y THEN "young" ELSE "old"]
   /\ res' = [kind |-> "ok", muts |-> 1]
@@ -126,16 +202,26 @@ NewBlock(y) ==
 
 (* only L1-unconfirmed blocks are ever reverted, and at least one retained block stays *)
 Revert ==
-  /\ Quiet /\ Budget /\ EnableRevert
+  /\ Quiet /\ Budget /\ EnableRevert /\ rf.init
   /\ disk.height >= 1 /\ disk.height > disk.l1 /\ disk.com # {} /\ disk.height > Oldest(disk)
   /\ LET h == disk.height IN
      /\ h \in disk.hist /\ h \in disk.su /\ h \in disk.hdr
-     /\ disk' = DelBlock(disk, h)
      /\ yf' = IF yf >= h THEN h ELSE yf
      /\ act' = [name |-> "Revert", n |-> h, outcome |-> "ok"]
-  /\ res' = [kind |-> "ok", muts |-> 1]
+     \* RunningEventFilter.onReorg: reverting the last block of a window re-opens that window —
+     \* its persisted row is loaded and deleted; without the row the revert fails
+     /\ IF rf.from = h + 1
+        THEN IF WinOf(h) \in WinFroms(disk)
+             THEN LET w == CHOOSE x \in disk.win : x.from = WinOf(h) IN
+                  /\ disk' = [DelBlock(disk, h) EXCEPT !.win = @ \ {w}]
+                  /\ rf' = [init |-> TRUE, from |-> w.from, lo |-> w.lo, next |-> h]
+                  /\ err' = err /\ res' = [kind |-> "ok", muts |-> 1]
+             ELSE /\ disk' = disk /\ rf' = rf /\ err' = "revert-window-missing"
+                  /\ res' = [kind |-> "error", muts |-> 0]
+        ELSE /\ disk' = DelBlock(disk, h) /\ rf' = [rf EXCEPT !.next = h]
+             /\ err' = err /\ res' = [kind |-> "ok", muts |-> 1]
   /\ steps' = steps + 1
-  /\ UNCHANGED <<floor, pending, sampled, svc, alive, pc, keepMax, dirty, err>>
+  /\ UNCHANGED <<floor, pending, sampled, svc, alive, pc, keepMax, dirty>>
 
 SetL1(n) ==
   /\ Quiet /\ Budget /\ n > disk.l1 /\ n <= MaxL1
@@ -143,7 +229,7 @@ SetL1(n) ==
   /\ act' = [name |-> "SetL1", n |-> n, outcome |-> "ok"]
   /\ res' = [kind |-> "ok", muts |-> 1]
   /\ steps' = steps + 1
-  /\ UNCHANGED <<yf, floor, pending, sampled, svc, alive, pc, keepMax, dirty, err>>
+  /\ UNCHANGED <<rf, yf, floor, pending, sampled, svc, alive, pc, keepMax, dirty, err>>
 
 Sample ==
   /\ Quiet /\ Budget /\ MinAge /\ svc = "up"
@@ -151,7 +237,7 @@ Sample ==
   /\ act' = [name |-> "Sample", n |-> 0, outcome |-> "ok"]
   /\ res' = [kind |-> "ok", muts |-> 0]
   /\ steps' = steps + 1
-  /\ UNCHANGED <<disk, yf, floor, pending, svc, alive, pc, keepMax, dirty, err>>
+  /\ UNCHANGED <<disk, rf, yf, floor, pending, svc, alive, pc, keepMax, dirty, err>>
 
 Restart ==
   /\ (~alive) \/ (Quiet /\ Budget)
@@ -160,10 +246,23 @@ Restart ==
   /\ pending' = 0
   /\ sampled' = SeedSample(disk)
   /\ keepMax' = 0
+  /\ rf' = NoFilter      \* lazily re-initialised on first use: InitFilter
   /\ act' = [name |-> "Restart", n |-> 0, outcome |-> "ok"]
   /\ res' = [kind |-> "ok", muts |-> 0]
   /\ steps' = IF alive THEN steps + 1 ELSE steps
   /\ UNCHANGED <<disk, yf, dirty, err>>
+
+(* first use of the event index after a start (a Store, a revert or an event query): the running
+   filter is rebuilt from the database; windows completed during the fill are persisted.  Lazy: a
+   prune may run before it. *)
+InitFilter ==
+  /\ Quiet /\ ~rf.init
+  /\ LET r == InitResult(disk) IN
+     /\ disk' = [disk EXCEPT !.win = r.win]
+     /\ rf' = r.rf
+     /\ res' = [kind |-> "ok", muts |-> Cardinality(r.win \ disk.win)]
+  /\ act' = [name |-> "InitFilter", n |-> 0, outcome |-> "ok"]
+  /\ UNCHANGED <<yf, floor, pending, sampled, svc, alive, pc, keepMax, dirty, err, steps>>
 
 \* ------------------------------------------------------------------ the pruner's decisions
 (* a - b over the naturals: an underflow is recorded instead of wrapping *)
@@ -205,7 +304,7 @@ DeliverHead(b) ==
   /\ Quiet /\ Budget /\ svc = "up" /\ b \in 0..disk.height
   /\ act' = [name |-> "DeliverHead", n |-> b, outcome |-> IF Young(b) THEN "young" ELSE "old"]
   /\ steps' = steps + 1
-  /\ UNCHANGED <<disk, yf, svc, alive, dirty>>
+  /\ UNCHANGED <<disk, rf, yf, svc, alive, dirty>>
   /\ IF disk.l1 < 0 \/ disk.l1 <= b \/ b < Retained
      THEN Ignored /\ pending' = pending
      ELSE IF pending + 1 < L2PerPrune
@@ -220,7 +319,7 @@ DeliverL1(n) ==
   /\ Quiet /\ Budget /\ svc = "up" /\ n \in 0..disk.l1
   /\ act' = [name |-> "DeliverL1", n |-> n, outcome |-> "ok"]
   /\ steps' = steps + 1
-  /\ UNCHANGED <<disk, yf, svc, alive, dirty>>
+  /\ UNCHANGED <<disk, rf, yf, svc, alive, dirty>>
   /\ IF disk.height < 0 \/ n >= disk.height \/ n < Retained
      THEN Ignored /\ pending' = pending
      ELSE /\ pending' = 0
@@ -248,12 +347,14 @@ PruneStep(outcome) ==
                      !.com = IF FixPruneAtomicFloor THEN {i \in @ : i >= pc.cur + nblk} ELSE @,
                      !.su = IF FixPruneAtomicFloor THEN {i \in @ : i >= pc.cur + nblk} ELSE @,
                      !.txs = IF FixPruneAtomicFloor THEN {i \in @ : i >= pc.cur + nblk} ELSE @,
-                     !.hdr = IF FixPruneAtomicFloor THEN {i \in @ : i >= pc.cur + nblk - Lag} ELSE @]
+                     !.hdr = IF FixPruneAtomicFloor THEN {i \in @ : i >= pc.cur + nblk - Lag} ELSE @,
+                     !.win = IF FixPruneAtomicFloor THEN DelWins(@, pc.cur + nblk) ELSE @]
          dRange == [d EXCEPT
                      !.hdr = {i \in @ : i >= pc.cur - Lag},
                      !.com = {i \in @ : i >= pc.cur},
                      !.su = {i \in @ : i >= pc.cur},
-                     !.txs = {i \in @ : i >= pc.cur}]
+                     !.txs = {i \in @ : i >= pc.cur},
+                     !.win = DelWins(@, pc.cur)]
          dNew == IF pc.stage = "hash" THEN dHash ELSE dRange
          done == pc.stage = "range"
          \* a cancellation is seen by the per-block loop only: after the last rotation it has no effect
@@ -263,14 +364,14 @@ PruneStep(outcome) ==
                                    !.first = FALSE, !.muts = @ + 1, !.cancelled = canc] IN
      IF pc.stage = "hash" /\ ~readable
      THEN /\ outcome = "ok" /\ disk' = d /\ alive' = TRUE /\ pc' = Idle /\ svc' = svc
-          /\ sampled' = sampled /\ dirty' = dirty
+          /\ sampled' = sampled /\ dirty' = dirty /\ rf' = rf
           /\ res' = [kind |-> "error", muts |-> pc.muts]
      ELSE CASE outcome = "crash" ->
-                 /\ disk' = dNew /\ alive' = FALSE /\ pc' = Idle /\ svc' = "down"
+                 /\ disk' = dNew /\ alive' = FALSE /\ pc' = Idle /\ svc' = "down" /\ rf' = NoFilter
                  /\ sampled' = sampled /\ dirty' = (dirty \/ ~done)
                  /\ res' = [kind |-> "crashed", muts |-> pc.muts + 1]
             [] OTHER ->
-                 /\ disk' = dNew /\ alive' = TRUE /\ pc' = pcNext
+                 /\ disk' = dNew /\ alive' = TRUE /\ pc' = pcNext /\ rf' = rf
                  /\ svc' = IF outcome = "cancel" THEN "down" ELSE svc
                  /\ sampled' = IF done THEN Max2(sampled, pc.cur) ELSE sampled
                  /\ dirty' = IF done THEN FALSE ELSE dirty
@@ -285,6 +386,7 @@ Next ==
   \/ Sample
   \/ \E o \in {"ok", "cancel", "crash"} : PruneStep(o)
   \/ Restart
+  \/ InitFilter
 
 Spec == Init /\ [][Next]_vars
 
@@ -293,8 +395,26 @@ TypeOK ==
   /\ disk.height \in -1..MaxH /\ disk.l1 \in -1..MaxL1
   /\ \A f \in AllFams(disk) : f \subseteq Nums
   /\ floor \in 0..MaxH /\ sampled \in 0..MaxH /\ pending \in 0..L2PerPrune
+  /\ \A w \in disk.win : w.from \in WinStarts /\ w.lo \in w.from..(w.from + W - 1)
+  /\ rf.init \in BOOLEAN /\ rf.from \in WinStarts /\ rf.lo \in Nat /\ rf.next \in 0..(MaxH + 1)
 
-NoUnderflow == err = "none"
+NoUnderflow == err = "none"    \* nor a revert failing on a missing persisted window
+
+(* every block at or above the oldest retained one can be found by an event query: it is indexed
+   by the running window or by a persisted one — at every moment (between two batches of a running
+   prune too); where the running filter does not exist (after a crash, after a restart before its
+   first use) the one the next start builds from the database is meant *)
+EventsCovered ==
+  disk.height >= 0 =>
+    IF alive /\ rf.init THEN Covered(disk, rf)
+    ELSE LET r == InitResult(disk) IN Covered([disk EXCEPT !.win = r.win], r.rf)
+
+(* the running filter, once initialised, is the window after the head; persisted windows are
+   complete and at most one per window *)
+FilterFollowsChain ==
+  /\ (alive /\ rf.init) => (rf.next = disk.height + 1 /\ rf.from = WinOf(disk.height + 1) /\ rf.lo <= rf.next)
+  /\ \A w \in disk.win : w.from + W - 1 <= disk.height
+  /\ \A w, x \in disk.win : w.from = x.from => w = x
 
 (* the floor is never higher than min(L1 head, local head) - Retained ... *)
 FloorBound ==
@@ -325,6 +445,7 @@ BelowFloorClean ==
     LET o == Oldest(disk) IN
     /\ \A n \in disk.txl \cup disk.hist : n >= o
     /\ \A n \in disk.h2n : n >= o - 1
+    /\ (~dirty \/ FixPruneAtomicFloor) => \A w \in disk.win : w.from + W > o
     /\ (~dirty) => /\ \A n \in disk.su \cup disk.txs : n >= o
                    /\ \A n \in disk.hdr : n >= o - Lag
 
@@ -335,6 +456,7 @@ Canonical(d, o) ==
   /\ d.com = up /\ d.su = up /\ d.txs = up /\ d.txl = up /\ d.hist = up
   /\ d.hdr = {n \in 0..d.height : n >= o - Lag}
   /\ d.h2n = {n \in 0..d.height : n >= o - 1}
+  /\ WinFroms(d) = {f \in WinStarts : f + W > o /\ f + W - 1 <= d.height}
 Resumable ==
   [][(act'.name = "PruneStep" /\ res'.kind = "ok" /\ ~pc.cancelled /\ act'.outcome # "cancel")
        => Canonical(disk', pc.end)]_vars
@@ -344,4 +466,7 @@ FloorMonotone == [][(alive /\ alive' /\ act'.name # "Restart") => floor' >= floo
 
 (* a restart changes nothing durable and never publishes a floor above the oldest retained block *)
 RestartIsNoOp == [][act'.name = "Restart" => (disk' = disk /\ floor' <= Oldest(disk))]_vars
+
+(* the lazy initialisation only ADDS persisted windows (those completed during its fill) *)
+InitFilterOnlyAdds == [][act'.name = "InitFilter" => (disk.win \subseteq disk'.win /\ [disk' EXCEPT !.win = disk.win] = disk)]_vars
 =============================================================================
